@@ -40,6 +40,7 @@ def run_fn(ex, st, fn, args):
     frame = E.Frame(None)
     frame.vars.update(args)
     st.frame = frame
+    ex.fn_node = fn
     body = [s for s in fn.body if not (isinstance(s, ast.Expr) and isinstance(s.value, ast.Constant))]
     return ex.run_block(st, body)
 
